@@ -454,6 +454,21 @@ func (e *Engine) exec1(step int, cmd *Cmd, twin bool) {
 		fails = append(fails, Fail{"C08.alive", "a mutex is still held after the call returned"}, Fail{"C11.dead", "a mutex is still held after the call returned"})
 	}
 	fails = keyExtraRules(cmd, fails)
+	if cmd.Filter != nil && (cmd.Op == "Scan" || cmd.Op == "Query") {
+		// a wrong filtered read on this client while ANOTHER client holds a Go
+		// matcher for the same table and text: state leaked between clients
+		key := cmd.T + "|" + FilterText(cmd)
+		for oc, o := range e.M.Clients {
+			if _, ok := o.Matchers[key]; ok && oc != cmd.C {
+				for _, f := range fails {
+					if f.Rule == "C02.set" {
+						fails = append(fails, Fail{"C18.isolate", fmt.Sprintf("client %d registered a matcher for this table and filter text; client %d's read is wrong: %s", oc, cmd.C, f.Msg)})
+						break
+					}
+				}
+			}
+		}
+	}
 	st.Fails = fails
 	e.addFails(step, cmd, fails)
 	if e.stop {
